@@ -2,6 +2,7 @@
 from __future__ import annotations
 
 from sa import terms as T
+from sa.anchors import is_helper
 from sa.core import AnalysisError
 from sa.rules.common import effects, call_head
 from sa.rules.tablemodel import flatten
@@ -25,7 +26,7 @@ def data_index_state(ctx, rule='C10-R1'):
     ctx.saw(f)
     def inline(q, d):
         cf = p.funcs.get(q)
-        return q == 'ampycloud.utils.utils.check_data_consistency' or (
+        return q == 'ampycloud.utils.utils.check_data_consistency' or is_helper(p, q) or (
             cf is not None and cf.module.name in ('ampycloud.data', 'ampycloud.utils.utils') and cf.name.startswith('_')
             and not cf.name.startswith('__'))
     ex = Executor(p, inline=inline, max_depth=6)
@@ -264,7 +265,7 @@ def name_keyed_operations(ctx, rule='C10-R4'):
 
     def inline(q, d):
         cf = p.funcs.get(q)
-        return q == 'ampycloud.utils.utils.check_data_consistency' or (
+        return q == 'ampycloud.utils.utils.check_data_consistency' or is_helper(p, q) or (
             cf is not None and cf.module.name in ('ampycloud.data', 'ampycloud.utils.utils') and cf.name.startswith('_')
             and not cf.name.startswith('__'))
     ex = Executor(p, inline=inline, max_depth=6)
